@@ -19,8 +19,8 @@ Rec == ndJsonDeserialize(IOEnv.TRACE)
 
 D(x) == ToString(x)
 
-VARIABLES l, bad, cnt
-vars == <<l, bad, cnt>>
+VARIABLES l, bad, cnt, div
+vars == <<l, bad, cnt, div>>
 
 
 Has(e, f) == f \in DOMAIN e
@@ -34,8 +34,19 @@ OneKingEach(b) == Cardinality(Kings(b, 0)) = 1 /\ Cardinality(Kings(b, 1)) = 1
 (***************************************************************************)
 (* gen: one call of generate_moves(board, mode).                           *)
 (***************************************************************************)
-GenFails(e) ==
-  LET pos == Decode(e.pos)
+\* The position the RULES give for the board of a gen event: the event's own position at a chain root,
+\* otherwise the rules' successor of the parent's (spec) position by the move that led here.  It differs
+\* from the engine's recorded state exactly when an earlier successor was wrong; `div` remembers those.
+SpecPos(e) ==
+  IF e.par = 0 THEN Decode(e.pos)
+  ELSE LET pe == Rec[e.par]
+           sp == IF e.par \in DOMAIN div THEN div[e.par] ELSE Decode(pe.pos)
+           m == DescOf(pe.moves[e.via].s)
+           parentOk == ~\E x \in bad : x[2] = e.par /\ x[3] = "moveset"
+       IN IF WellFormed(sp) /\ (parentOk \/ m \in Legal(sp)) THEN Apply(sp, m) ELSE Decode(e.pos)
+
+GenFails(e, pos) ==
+  LET diverged == pos # Decode(e.pos)
       all == e.mode = "all"
       legal == Legal(pos)
       want == IF all THEN legal ELSE {m \in legal : IsCapture(pos, m)}
@@ -50,7 +61,8 @@ GenFails(e) ==
   \cup
   \* C02 / C13: every successor is the position the rules give, king cache included
   UNION {LET s == e.moves[i].s  m == descs[i] IN
-         IF m \in legal
+         IF diverged THEN {}      \* the first wrong successor was reported at the parent event
+         ELSE IF m \in legal
          THEN LET a == Apply(pos, m) IN
               (IF SameAs(a, s) /\ KingsOk(a, s) THEN {}
                ELSE {<<IF all THEN "C02" ELSE "C13", "successor", D(m)>>})
@@ -82,7 +94,8 @@ GenFails(e) ==
   UNION {IF e.moves[i].s.res # <<>> THEN {<<"C05", "residue", D(<<descs[i], e.moves[i].s.res>>)>>} ELSE {} : i \in 1..Len(e.moves)}
   \cup
   \* C06: check flags for both colours
-  (IF e.chk[1] # InCheck(pos.b, 0) \/ e.chk[2] # InCheck(pos.b, 1)
+  (LET eb == DecodeB(e.pos.r) IN
+   IF OneKingEach(eb) /\ (e.chk[1] # InCheck(eb, 0) \/ e.chk[2] # InCheck(eb, 1))
    THEN {<<"C06", "check", D(e.chk)>>} ELSE {})
   \cup
   \* chain consistency (harness side): this board is the via-th successor of its parent event
@@ -91,7 +104,7 @@ GenFails(e) ==
    THEN {<<"TOOL", "chain", D(e.par)>>} ELSE {})
 
 GenCounts(e) ==
-  LET pos == Decode(e.pos) IN
+  LET pos == SpecPos(e) IN
   [wf |-> 1,
    castle |-> Cardinality({i \in 1..Len(e.moves) : IsCastle(pos, DescOf(e.moves[i].s))}),
    ep |-> Cardinality({i \in 1..Len(e.moves) : IsEpCapture(pos, DescOf(e.moves[i].s))}),
@@ -211,7 +224,7 @@ CliFails(e) ==
   \cup (IF e.kind = "spec" /\ ~e.searched THEN {<<"C15", "cli-rejected", D(e.input)>>} ELSE {})
 
 Fails(e) ==
-  CASE e.ev = "gen" -> (IF WellFormed(Decode(e.pos)) THEN GenFails(e) ELSE {})
+  CASE e.ev = "gen" -> (LET sp == SpecPos(e) IN IF WellFormed(sp) THEN GenFails(e, sp) ELSE {})
     [] e.ev = "chk" -> ChkFails(e)
     [] e.ev = "txt" -> (IF WellFormed(Decode(e.before)) THEN TxtFails(e) ELSE {})
     [] e.ev = "pos" -> PosFails(e)
@@ -220,11 +233,11 @@ Fails(e) ==
     [] e.ev = "cli" -> CliFails(e)
     [] OTHER -> {<<"TOOL", "unknown-event", D(e.ev)>>}
 
-ZeroCnt == [gen |-> 0, skipped |-> 0, castle |-> 0, ep |-> 0, promo |-> 0, incheck |-> 0, moves |-> 0,
+ZeroCnt == [gen |-> 0, diverged |-> 0, skipped |-> 0, castle |-> 0, ep |-> 0, promo |-> 0, incheck |-> 0, moves |-> 0,
             chk |-> 0, txt |-> 0, pos |-> 0, fen |-> 0, eval |-> 0, cli |-> 0]
 Count(c, e) ==
   CASE e.ev = "gen" ->
-         IF WellFormed(Decode(e.pos))
+         IF WellFormed(SpecPos(e))
          THEN LET g == GenCounts(e) IN
               [c EXCEPT !.gen = @ + 1, !.castle = @ + g.castle, !.ep = @ + g.ep, !.promo = @ + g.promo,
                         !.incheck = @ + g.incheck, !.moves = @ + g.moves]
@@ -237,11 +250,13 @@ Count(c, e) ==
     [] e.ev = "cli" -> [c EXCEPT !.cli = @ + 1]
     [] OTHER -> c
 
-Init == l = 1 /\ bad = {} /\ cnt = ZeroCnt
+Init == l = 1 /\ bad = {} /\ cnt = ZeroCnt /\ div = <<>>
 Next == /\ l <= Len(Rec)
         /\ l' = l + 1
         /\ bad' = bad \cup {<<f[1], l, f[2], f[3]>> : f \in Fails(Rec[l])}
         /\ cnt' = Count(cnt, Rec[l])
+        /\ div' = IF Rec[l].ev = "gen" /\ Rec[l].par # 0 /\ SpecPos(Rec[l]) # Decode(Rec[l].pos)
+                  THEN div @@ (l :> SpecPos(Rec[l])) ELSE div
 Spec == Init /\ [][Next]_vars
 
 \* as soon as the last line is consumed (single behaviour, so exactly once) the verdict record is
